@@ -165,6 +165,10 @@ def check_case(t, name, X, case):
     directed = kind == 'd'
     if alpha == BIN:
         binary_pairs(t, X, case, directed, paths_only=name.endswith('_paths'))
+        if n <= 4:
+            # the same 0/1 matrix with its zeros stored as -0.0 (what W * (W > 0) leaves behind)
+            Xn = np.where(X == 0, -0.0, X)
+            binary_pairs(t, Xn, dict(case, X=Xn, variant='negative_zeros'), directed, paths_only=name.endswith('_paths'))
         if not directed and not name.endswith('_paths'):
             symmetric_pairs(t, X, case, True)
     else:
